@@ -10,7 +10,7 @@ EXPLANATION = ("LooseThenPacked::next merges two streams by comparing full refer
                "(fs-walkdir-parallel), that the walker is given a custom sibling comparator (sort_by / process_read_dir, not sort_by_file_name / sort(true)) "
                "whose code consults is_dir and the byte '/' and compares the common prefix first; that SortedLoosePaths obtains its walk from that function; "
                "and that the merge's comparison is a byte-wise Ord::cmp of names. ref_contents classifies NotFound and ENOTDIR (a leading component is a file) as `not here`, like git's files backend, so short-name candidates are tried in full. "
-               "DWIM lookup order and values are otherwise not decided.")
+               "Every candidate loop of find_one_with_verified_input reaches the loose read and the packed lookup in the same iteration. DWIM lookup order and values are otherwise not decided.")
 NAIVE = r"(WalkDir::sort_by_file_name$|WalkDirGeneric::<C>::sort$|::sort_by_file_name$)"
 
 
@@ -59,6 +59,7 @@ def check_sorter(cfg, db, chk, builder_pat):
 def run(db, chk):
     not_found_table(db, chk)
     prefix_filter_rule(db, chk)
+    candidate_order_rule(db, chk)
     check_sorter("ws(walkdir)", db, chk, r"walkdir::WalkDir::sort_by$")
     db2 = facts.load("fs-par")
     check_sorter("fs-par(jwalk)", db2, chk, r"::process_read_dir$")
@@ -143,3 +144,43 @@ def prefix_filter_rule(db, chk):
                        "the prefix remainder is compared with the file NAME of a loose reference: with prefix refs/heads/fo the loose ref refs/heads/foo/bar is dropped (a stale packed value is then returned) and refs/heads/x/foo is included",
                        c.where(), key="prefix-filter|SortedLoosePaths")
     chk.floor("SortedLoosePaths::next: prefix test", n, 1)
+
+
+def candidate_order_rule(db, chk):
+    """a short name is resolved through git's candidate list (refs/<n>, refs/tags/<n>, refs/heads/<n>, refs/remotes/<n>, ...) and the FIRST
+    candidate that exists wins - whether it lives in a loose file or only in packed-refs.  `Loose beats packed` holds for the same full name
+    only.  So each candidate is looked up loose and packed before the next one is tried: in find_one_with_verified_input every loop over the
+    candidates that reaches a loose read (ref_contents) through its callees also reaches the packed lookup in the same iteration, and vice versa."""
+    f = db.one(r"^gix_ref::store_impl::file::find::<impl gix_ref::file::Store>::find_one_with_verified_input$|^gix_ref::store_impl::file::find::<impl gix_ref::store_impl::file::Store>::find_one_with_verified_input$")
+    LOOSE, PACKED = r"::ref_contents$", r"packed::find::<impl gix_ref::store_impl::packed::Buffer>::(try_find_full_name|try_find|find)$|packed::Buffer>::try_find_full_name$"
+    in_ref = lambda n: n.startswith("gix_ref::") or n.startswith("<gix_ref::")
+    n = 0
+    for l in f.loops():
+        calls_ = [c for c in f.calls() if c.block in l["body"]]
+        keys = []
+        for c in calls_:
+            for nm in c.names:
+                g = db.fns.get(nm) if isinstance(db.fns, dict) else None
+                if g is not None and in_ref(g.name):
+                    keys.append(g.key)
+        reach = db.reachable(keys, stop=lambda nm: not in_ref(nm)) if keys else {}
+        kinds = set()
+        for nm in list(reach) + []:
+            g = db.fns.get(nm) if isinstance(db.fns, dict) else None
+            if g is None:
+                continue
+            if g.calls_to(LOOSE):
+                kinds.add("loose")
+            if g.calls_to(PACKED):
+                kinds.add("packed")
+        for c in calls_:
+            if c.is_(LOOSE): kinds.add("loose")
+            if c.is_(PACKED): kinds.add("packed")
+        if not kinds:
+            continue
+        n += 1
+        line = min((c.line for c in calls_), default=f.line)
+        chk.ob("each-candidate-loose-then-packed", "find_one_with_verified_input candidate loop@%d" % line, kinds == {"loose", "packed"},
+               "this loop over the candidate names looks only at %s references: an earlier candidate that exists only in the other store loses against a later one (packed refs/tags/v1 vs loose refs/heads/v1: git resolves the tag)" % sorted(kinds),
+               "%s:%d" % (f.file, line), key="candidate-order|find_one_with_verified_input")
+    chk.floor("find_one_with_verified_input: candidate loops with lookups", n, 1)
